@@ -2,6 +2,7 @@
    The model writes the checked_add explicitly; nothing is computed modulo 2^64. *)
 Require Import Enr.Bytes Enr.Consts Enr.Rlp Enr.SortedMap Enr.Keccak Enr.Record Enr.Update.
 Require Import EnrProofs.Thm_Update EnrProofs.RlpLemmas EnrProofs.Thm_Decode.
+Require Enr.Toy.
 Require Import Enr.Spec EnrProofs.RefineLemmas EnrProofs.Thm_Refine EnrProofs.Thm_Cause.
 Open Scope N_scope.
 
@@ -48,3 +49,14 @@ Theorem step_at_max_reports_seq : forall (c : crypto) kt r o k sg,
   step c kt r o k sg = (Err ESequenceNumberTooHigh, r).
 Proof. exact Thm_Cause.step_at_max_reports_seq. Qed.
 Print Assumptions step_at_max_reports_seq.
+
+(* non-vacuity: the toy record moved to 2^64-1, then a content update: the sequence-number error, the record unchanged *)
+Example toy_at_max :
+  match Toy.toy_built with
+  | Ok r =>
+      let '(x1, r1) := step Toy.toy_crypto Toy r (OSetSeq U64_MAX) (Toy.toy_key Toy.toy_pk1) (Toy.toy_signer Toy.toy_pk1 []) in
+      let '(x2, r2) := step Toy.toy_crypto Toy r1 (OSetTcp4 8080) (Toy.toy_key Toy.toy_pk1) (Toy.toy_signer Toy.toy_pk1 []) in
+      x1 = Ok RUnit /\ seq r1 = U64_MAX /\ x2 = Err ESequenceNumberTooHigh /\ r2 = r1
+  | _ => False
+  end.
+Proof. vm_compute. repeat split. Qed.
